@@ -46,7 +46,7 @@ EdgeSeq == LET E == {<<p, c>> \in Ids \X Ids : p \in parents[c]}
 Expect == [ arena |-> arena, edges |-> EdgeSeq, facts |-> facts, expect |-> Proj,
             pairs |-> IF WithPairs THEN SimPairs ELSE <<>>,
             paths |-> IF WithExtras THEN PathPairs ELSE <<>>,
-            sets |-> IF WithExtras THEN SetInfos ELSE <<>> ]
+            sets |-> IF WithExtras /\ Cardinality(Terms) <= 4 THEN SetInfos ELSE <<>> ]
 
 Emit == (EmitAll \/ Len(facts) = MaxFacts + (IF Prefix THEN 3 ELSE 0)) => PrintT(<<"REPLAY", ToJson(Expect)>>)
 
